@@ -1,9 +1,17 @@
 (* Vocabulary of the translated buffer-ownership table (coq/gen/GenOwn.v). *)
 From Vx Require Import base.Prelude.
-Inductive bkind := KInter | KOsc | KApc | KDcs.
+(* the parser's reusable fields, and [KLoc i]: the i-th pooled local of the function that is
+   running (a buffer taken from a pool into a local variable or into a field of the sequence
+   under construction; it dies when the function returns) *)
+Inductive bkind := KInter | KOsc | KApc | KDcs | KLoc (n : nat).
 Inductive bsrc := Fresh | PoolGet | Reslice.
 Inductive oact :=
   | OAlias (k : bkind)            (* the buffer is referenced by an outgoing sequence *)
   | OEmit                         (* a sequence is delivered to the consumer *)
-  | OReplace (k : bkind) (s : bsrc)   (* the parser's field is re-pointed *)
+  | OReplace (k : bkind) (s : bsrc)   (* the parser's field / the local is re-pointed *)
   | OWrite (k : bkind).           (* the buffer is appended to *)
+(* a control-flow path with loops: straight-line actions, and loops of which every iteration
+   runs one of the listed bodies (any number of iterations, in any order) *)
+Inductive oseg :=
+  | SActs (l : list oact)
+  | SLoop (bodies : list (list oact)).
